@@ -146,6 +146,17 @@ func genConcCase(rng *simrt.Rng, o *ConcOpts) *ConcCase {
 			case resize == 2 && len(victims) > 0 && rng.Intn(2) == 0:
 				ops = append(ops, Op{Kind: "invalidate", K: victims[0]})
 				victims = victims[1:]
+			case resize == 3:
+				// fresh keys push the big table over its grow threshold while other tasks remove or
+				// rewrite filler keys (the buckets being copied are busy)
+				switch rng.Intn(3) {
+				case 0:
+					ops = append(ops, Op{Kind: "set", K: 1000 + t*100 + i, V: g.newVal()})
+				case 1:
+					ops = append(ops, Op{Kind: "invalidate", K: 100 + rng.Intn(400)})
+				default:
+					ops = append(ops, Op{Kind: "set", K: 100 + rng.Intn(400), V: g.newVal()})
+				}
 			}
 		}
 		cc.Tasks = append(cc.Tasks, ops)
